@@ -15,9 +15,10 @@
   both backends; (b) to_bytes canonical, predicates = mod-p predicates; (c) from_bytes; (d) add/sub/neg/mul/square/
   square_and_double/mul_small/square_repeatdly/invert/pow25523 with NO i32/i64 overflow; (e) the 264 table entries
   and 5 constants denote the same residues in both backends; (g) program-level observational equivalence.
-  NOT proved (correspondence only; the statements that depend on it are `…_partial` with the missing ingredient as
-  an explicit hypothesis `Sc32ReduceSpec` / `Sc32MuladdSpec`): (f) scalar32 `reduce_from_wide_bytes` / `muladd`
-  (ref10 sc_reduce / sc_muladd) = value mod L.  `bits` / `nibbles` ARE proved.
+  (f) scalar32 `reduce_from_wide_bytes` / `muladd` (ref10 sc_reduce / sc_muladd) = value mod L: stated here as the named
+  propositions `Sc32ReduceSpec` / `Sc32MuladdSpec` with `…_partial` corollaries; both propositions are PROVED in
+  Props/C17/Sc32.lean (no i64 overflow in any multiply-accumulate or carry, value preserved mod L, result in [0, L),
+  packing), which also gives the unconditional `wide_reduction_equivalent` / `muladd_equivalent`.  `bits` / `nibbles` are proved here.
 -/
 import CxVerif.Proofs.Fe32Tables
 import CxVerif.Proofs.Fe32Arith
